@@ -124,8 +124,9 @@ def _num_eq(a, b):
         return False
 
 
-def deep_diff(a, b, path="", out=None, seen=None):
-    """differences between the original ``a`` and the decoded ``b`` (list of texts; empty = same)"""
+def deep_diff(a, b, path="", out=None, seen=None, skip=()):
+    """differences between the original ``a`` and the decoded ``b`` (list of texts; empty = same);
+    ``skip``: (class name, attribute) pairs decided by another obligation"""
     np = _np()
     out = [] if out is None else out
     seen = set() if seen is None else seen
@@ -157,7 +158,7 @@ def deep_diff(a, b, path="", out=None, seen=None):
             return bad("original ndarray, decoded %s" % type(b).__name__)
         if a.shape != b.shape:
             return bad("matrix shape %r, decoded %r" % (a.shape, b.shape))
-        return deep_diff(a.tolist(), b.tolist(), path + ".cells", out, seen)
+        return deep_diff(a.tolist(), b.tolist(), path + ".cells", out, seen, skip)
     if isinstance(a, tuple):
         if not isinstance(b, tuple):
             return bad("original tuple %s, decoded %s %s" % (_short(a), type(b).__name__, _short(b)))
@@ -166,7 +167,7 @@ def deep_diff(a, b, path="", out=None, seen=None):
         if len(a) != len(b):
             return bad("tuple length %d, decoded %d (%s / %s)" % (len(a), len(b), _short(a), _short(b)))
         for i, (x, y) in enumerate(zip(a, b)):
-            deep_diff(x, y, "%s[%d]" % (path, i), out, seen)
+            deep_diff(x, y, "%s[%d]" % (path, i), out, seen, skip)
         return out
     if isinstance(a, list):
         if not isinstance(b, list):
@@ -174,7 +175,7 @@ def deep_diff(a, b, path="", out=None, seen=None):
         if len(a) != len(b):
             return bad("list length %d, decoded %d (%s / %s)" % (len(a), len(b), _short(a), _short(b)))
         for i, (x, y) in enumerate(zip(a, b)):
-            deep_diff(x, y, "%s[%d]" % (path, i), out, seen)
+            deep_diff(x, y, "%s[%d]" % (path, i), out, seen, skip)
         return out
     if isinstance(a, (set, frozenset)):
         # simple_repr documents that sets travel as lists: same elements required, container kind is not
@@ -189,7 +190,7 @@ def deep_diff(a, b, path="", out=None, seen=None):
         if set(ka) != set(kb):
             return bad("dict keys %s, decoded %s" % (_short(sorted(a, key=key)), _short(sorted(b, key=key))))
         for kk in sorted(ka):
-            deep_diff(a[ka[kk]], b[kb[kk]], "%s[%r]" % (path, ka[kk]), out, seen)
+            deep_diff(a[ka[kk]], b[kb[kk]], "%s[%r]" % (path, ka[kk]), out, seen, skip)
         return out
     if _isfunc(a):
         if not callable(b):
@@ -212,6 +213,8 @@ def deep_diff(a, b, path="", out=None, seen=None):
             # an attribute that is missing counts as None (NAryMatrixRelation._matrix scratch attribute)
             va, vb = fa.get(k), fb.get(k)
             p = "%s.%s" % (path, k)
+            if any((n, k) in skip for n in names):
+                continue
             if k not in fb and va is not None:
                 out.append("%s: field lost (original %s)" % (p, _short(va)))
                 continue
@@ -222,7 +225,7 @@ def deep_diff(a, b, path="", out=None, seen=None):
                     and isinstance(vb, (list, tuple, set, frozenset)):
                 _unordered(list(va), list(vb), p, out)
             else:
-                deep_diff(va, vb, p, out, seen)
+                deep_diff(va, vb, p, out, seen, skip)
         return out
     try:
         if a != b:
@@ -700,7 +703,10 @@ def h_messages(env):
     cases, _ = cases_for(cname, cls, P)
     case = env.choice("variant", cases)
     # messages of synchronous computations are stamped with the cycle by SynchronousComputationMixin.post_msg
-    stamped_by = [m for m in where if m in sync_modules]
+    # (the classes *defined* in a module that has a synchronous computation; message_type products are defined
+    #  where they are bound)
+    defined_in = where if msgtype_fields(cls) is not None else [cls.__module__]
+    stamped_by = [m for m in defined_in if m in sync_modules]
     is_sync_msg = cname.endswith(".SynchronizationMsg")
     stamp = env.choice("sender", ["plain", "synchronous-computation"]) if (stamped_by or is_sync_msg) else "plain"
     tags = list(case.tags)
@@ -992,8 +998,11 @@ def variable_diff(env, va, vb, where):
 
 def h_compdef(env):
     p = env.params
-    model, spec, route = p["model"], p["spec"], p["route"]
+    model, route = p["model"], p["route"]
+    spec = env.choice("spec", p["specs"])
     L = "wire.compdef.%s." % model
+    # trait of the generated DCOP that gets its own obligation labels (one label = one root cause)
+    VT = "[VariableWithCostDict,non-string-domain-values]" if spec == "costdict-int-domain" else ""
     gm = env.call(importlib.import_module, "pydcop.computations_graph." + model)
     if isinstance(gm, Raised):
         env.prove(L + "graph-module-imports", False, detail=lambda: gm.tb)
@@ -1004,8 +1013,8 @@ def h_compdef(env):
     if isinstance(cg, Raised):
         raise RuntimeError("cannot build %s graph for spec %s: %s" % (model, spec, cg.tb))
     algos = algos_for(model)
-    if p.get("algos"):
-        algos = [a for a in algos if a in p["algos"]]
+    if p.get("algos") and spec in p.get("algos_only_for", [spec]):
+        algos = [a for a in algos if a in p["algos"]] or algos
     env.prove(L + "some-algorithm-uses-this-graph-model", bool(algos))
     if not algos:
         return
@@ -1054,6 +1063,16 @@ def h_compdef(env):
     # links and neighbours, as sets
     ldiff = _unordered(list(node.links), list(dn.links), "links", [])
     prove1(env, L + "links-equal", not ldiff, detail=lambda: (what, ldiff, list(node.links), list(dn.links)))
+    # the link classes carry their own wire format (PseudoTreeLink, OrderLink, FactorGraphLink custom reprs): every
+    # link of the node, encoded and decoded on its own, is the same link (class, type, nodes, source/target, name)
+    lbad = []
+    for lk in node.links:
+        st, dl, _ = route_json(env, lk)
+        if st != "ok":
+            lbad.append("%r: %s fails: %r" % (lk, st, dl))
+        else:
+            lbad += deep_diff(lk, dl, repr(lk))
+    prove1(env, L + "every-link-of-the-node-survives-on-its-own", not lbad, detail=lambda: (what, lbad))
     ndiff = _unordered(list(node.neighbors), list(dn.neighbors), "neighbors", [])
     prove1(env, L + "neighbours-equal", not ndiff and len(set(dn.neighbors)) == len(list(dn.neighbors)),
            detail=lambda: (what, ndiff, list(node.neighbors), list(dn.neighbors)))
@@ -1069,13 +1088,13 @@ def h_compdef(env):
     # variable
     if hasattr(node, "variable"):
         vdiff = variable_diff(env, node.variable, dn.variable, "variable")
-        prove1(env, L + "variable-equal(name,domain,initial-value,cost-of-every-value)", not vdiff, detail=lambda: (what, vdiff))
+        prove1(env, L + "variable-equal(name,domain,initial-value,cost-of-every-value)" + VT, not vdiff, detail=lambda: (what, vdiff))
     if hasattr(node, "variables") and not hasattr(node, "variable"):
         va, vb = list(node.variables), list(dn.variables)
         vdiff = ["variables: %r, decoded %r" % (va, vb)] if [v.name for v in va] != [v.name for v in vb] else []
         for x, y in zip(va, vb):
             vdiff += variable_diff(env, x, y, "variables[%s]" % x.name)
-        prove1(env, L + "factor-variables-equal", not vdiff, detail=lambda: (what, vdiff))
+        prove1(env, L + "factor-variables-equal" + VT, not vdiff, detail=lambda: (what, vdiff))
     if hasattr(node, "constraints_names"):
         prove1(env, L + "constraints-names-equal", sorted(node.constraints_names) == sorted(dn.constraints_names),
                detail=lambda: (what, node.constraints_names, dn.constraints_names))
@@ -1094,10 +1113,10 @@ def h_compdef(env):
             for x, y in zip(ca[n].dimensions, cb[n].dimensions):
                 sdiff += variable_diff(env, x, y, "%s.scope[%s]" % (n, x.name))
         prove1(env, L + "relation-values-equal-on-every-assignment", not rdiff, detail=lambda: (what, rdiff))
-        prove1(env, L + "relation-scope-variables-equal", not sdiff, detail=lambda: (what, sdiff))
-    # and everything else: deep walk of all fields
-    diffs = deep_diff(cd, d)
-    prove1(env, L + "same-fields-deep", not diffs, detail=lambda: (what, diffs))
+        prove1(env, L + "relation-scope-variables-equal" + VT, not sdiff, detail=lambda: (what, sdiff))
+    # and everything else: deep walk of all fields (links / neighbours are decided above)
+    diffs = deep_diff(cd, d, skip=UNORDERED_ATTRS)
+    prove1(env, L + "same-fields-deep(all-other-fields)" + VT, not diffs, detail=lambda: (what, diffs))
 
 
 def _sorted_lists(x):
@@ -1108,17 +1127,22 @@ def _sorted_lists(x):
     return x
 
 
+SPECS = ["mixed", "yaml", "chain", "sliced", "costdict-str-domain", "costdict-int-domain"]
+
+
 def _compdef_shapes(tier):
     out = []
     for model in GRAPH_MODELS:
-        for spec in ("mixed", "yaml", "chain", "sliced", "costdict-str-domain", "costdict-int-domain"):
-            for route in ("json", "http"):
-                if route == "http" and spec not in ("mixed", "chain") and tier != "thorough":
-                    continue
-                sh = dict(model=model, spec=spec, route=route)
-                if tier != "thorough" and model == "constraints_hypergraph" and spec not in ("mixed",):
+        for route in ("json", "http"):
+            sh = dict(model=model, route=route, specs=list(SPECS))
+            if tier != "thorough":
+                if route == "http":
+                    sh["specs"] = ["mixed", "chain", "yaml"]
+                if model == "constraints_hypergraph":
+                    # every algorithm of the model on the first spec, three of them on the others
                     sh["algos"] = ["dsa", "mgm2", "dsatuto"]
-                out.append(sh)
+                    sh["algos_only_for"] = [x for x in SPECS if x != "mixed"]
+            out.append(sh)
     return out
 
 
